@@ -36,6 +36,51 @@ CHECKS = {
         text="The specification only states that the instruction set is not part of the key; equality of packets and recon across levels is decided per run.",
         note="Kernel divergences are seen only if they change the output of these inputs; AVX-512 needs a build with ENABLE_AVX512.",
         design="4 (C06)"),
+    "C08": dict(category="exploration",
+        technique="trace validation against TLA+ spec Observe.tla: SVT decoder (internal pipeline 8/16 bit, film grain applied) vs libaom 3.6.0 on streams from a configuration-diverse corpus",
+        text="Observation equality per output picture, same order and count, no decoder error.",
+        note="Only streams the SVT encoder can produce (no independent encoder offline); libaom via hand-declared ABI.", design="4 (C08)"),
+    "C09": dict(category="model_checking",
+        technique="TLA+ spec DecMT.tla (stage/row protocol, start flags, motion-field and end-of-frame barriers) checked exhaustively by TLC for 2-3 threads x 2-3 rows x 2 frames incl. liveness; real decoder bound observationally via Observe.tla (threads 1..8 under yield perturbation must equal the single-thread pictures; clean teardown)",
+        text="Each-row-once, stage ordering, no stale start flag, reset-behind-barrier and completion are invariants/liveness of DecMT.tla; the code is compared with it only through its outputs.",
+        note="No per-row trace hooks in the decoder; C11 data races not judged; oversubscribed regime is a recorded finding.", design="3.7, 4 (C09)"),
+    "C13": dict(category="model_checking",
+        technique="trace validation against Observe.tla: every declared configuration field after init_handle (list generated from the API header) and the output of an encode with the returned defaults must be independent of the prior memory contents",
+        text="The model statement is one line (InitHandle assigns every field); the enumeration fields x prefill patterns is complete for the listed patterns.",
+        note="Padding not compared; prefill patterns sampled (zero, 0xFF, 0xAA, random, used).", design="4 (C13)"),
+    "C14": dict(category="model_checking",
+        technique="TLA+ spec Api.tla (documented call protocol, NULL-argument variants, out-of-order calls, teardown); TLC enumerates the complete state graph; transition cover (one call program per abstract edge) replayed on the real library in separate processes",
+        text="Every distinct (state, call, state') edge of the model is executed on the real encoder: outcome class must be allowed by the model, no crash, no call may fail to return, teardown afterwards must succeed.",
+        note="Encoder API; programs bounded by the abstraction (<= 2 pictures); 20 s per call counts as blocking.", design="3.6, 4 (C14)"),
+    "C15": dict(category="model_checking",
+        technique="Api.tla transition-cover programs + mid-stream teardown points + repeated sessions executed with a link-time resource ledger (malloc/mutex/semaphore/thread --wrap); teardown must return with an empty ledger and the original thread count",
+        text="Teardown is enabled from every state of the model; every program of the cover and a sweep of mid-stream points (pictures sent x policy x recon x lp) are torn down on the real library with exact resource accounting.",
+        note="Ledger sees the wrapped primitives only; decoder sessions are covered by C08/C09 teardown checks.", design="4 (C15)"),
+    "C16": dict(category="fault_enumeration",
+        technique="TLA+ spec CtorUnwind.tla (EB_NEW/EB_DELETE unwinding, all small object trees x fault positions) + fault enumeration on the real library: K-th fallible primitive fails during init_handle / set_parameter / init",
+        text="Single-fault enumeration by index of the failing primitive with call-site attribution; the call must report an error, teardown must return, ledger must be empty.",
+        note="Quick samples K (all K<=60, last 40, random 110 per call); thorough enumerates every K of set_parameter and init and 10% of init_handle.", design="4 (C16)"),
+    "C18": dict(category="exploration",
+        technique="trace validation against Bitstream.tla (QOK) of base_q_idx in every frame header read by the independent parser; expectations from the configuration only",
+        text="Bounds [Q(min),Q(max)] for rate control, (1,63) for CQP, exact value for fixed-qindex-offset mode.", note="2-pass not exercised; uniform layer offsets.", design="4 (C18)"),
+    "C19": dict(category="exploration",
+        technique="trace validation against Bitstream.tla (intra placement by display position, DPB reset at shown key frames) + Observe.tla (cut-and-decode with libaom from every shown key frame equals the full decode)",
+        text="Placement and random-access are judged on every stream of a period x refresh-type x levels sweep, incl. streams longer than the picture pools.", note="Sampled periods and lengths.", design="4 (C19)"),
+    "C20": dict(category="exploration",
+        technique="trace validation against Bitstream.tla (ToolsOK/TilesOK/sequence switches) of every frame and sequence header for each tool switched off, and expected uniform tile layouts",
+        text="Frame/sequence-level signalling of disabled tools and tile counts.", note="No block-level counters (palette/CfL/OBMC/filter-intra blocks are covered only through frame/sequence switches).", design="4 (C20)"),
+    "C21": dict(category="model_checking",
+        technique="trace validation against Observe.tla with stride, padding bytes and post-send buffer reuse as environment (complete product of the listed values), ASan variant in thorough",
+        text="Output must equal the plain run for every environment choice.", note="Contents sampled.", design="4 (C21)"),
+    "C22": dict(category="model_checking",
+        technique="TLA+ RelDist.tla theorem (TLC, all bits<=8) + full table of the five real helper functions judged row by row; Packetize.tla with reorder depth << N; long real streams validated by Session/Bitstream/Observe",
+        text="Distance helpers complete for bits<=7 (8 thorough); queue wrap model-checked; streams > 2^7 pictures (quick) and > 2048/5000 (thorough) decoded and compared.", note="Long streams use small pictures.", design="4 (C22)"),
+    "C26": dict(category="exploration",
+        technique="trace validation against Observe.tla: reported SSE vs SSE recomputed from an independent decode of each packet and the regenerated source",
+        text="Three values per packet compared as 32-bit numbers; reference pictures judged before non-reference pictures.", note="8-bit only; source regenerated from the shared generator.", design="4 (C26)"),
+    "C27": dict(category="model_checking",
+        technique="Packetize.tla (same output for every completion order, progress) + trace validation against Observe.tla of the same stream retrieved under different pacing policies",
+        text="Every policy that completes must give the same packets/recon; drain-after-each-send must complete.", note="Policies sampled (each, every:k, none, random with delays).", design="4 (C27)"),
     "C23": dict(
         category="model_checking",
         technique="TLA+ spec SRM.tla: TLC exhaustive (SRMMC, safety + liveness under fairness) + trace validation (SRMTrace) of the hooked real SRM under a perturbed stress driver and on every SRM instance of real encodes",
